@@ -1,12 +1,11 @@
-\* as coded (guard size < MaxLen before an insertion): well-formedness holds, crossover respects MaxLen
 CONSTANTS
   NObj = 2
-  Types = {"A"}
+  Types = {"A", "B"}
   MaxLen = 3
-  MaxDeps = 1
-  MaxUses = 1
-  MaxStmts = 3
-  MaxCtr = 4
+  MaxDeps = 2
+  MaxUses = 2
+  MaxStmts = 4
+  MaxCtr = 5
   MaxSteps = 3
   InsertGuard = "as_coded"
   Raw = FALSE
